@@ -123,6 +123,8 @@ func (d *dispatcher) ServeHTTP(w http.ResponseWriter, req *http.Request) {
 	location.Scheme = ep.Scheme
 	location.Host = ep.Host
 	location.Path = req.URL.Path
+	// keep the escaped form of the path: without it an escaped byte such as %2F reaches the upstream decoded
+	location.RawPath = req.URL.RawPath
 	location.RawQuery = req.URL.Query().Encode()
 
 	newReq, cancel := newRequestForProxy(location, req, extraInfo.Hostname)
